@@ -378,6 +378,23 @@ def _name(s):
 # normal form of a term modulo helper extraction and placement of conditionals
 
 
+def call_arg(repo, file: str, t: T, pname: str) -> Optional[T]:
+    """The argument that the call term `t` binds to the callee's parameter `pname`, whether it is passed by keyword or by position
+    (the expander puts keyword arguments of package functions into their positions, so rules must not depend on the call style)."""
+    if t is None:
+        return None
+    if pname in t.kw:
+        return t.kw[pname]
+    if t.op == "call":
+        mi = repo.mods.get(file)
+        r = repo.resolve_name(mi, t.name) if mi is not None else None
+        if isinstance(r, FuncInfo) and r.cls is None and r.node.args.vararg is None:
+            names = [a.arg for a in r.node.args.args]
+            if pname in names and names.index(pname) < len(t.args):
+                return t.args[names.index(pname)]
+    return None
+
+
 def guard_truth(g: T, param: str, value) -> Optional[bool]:
     """Truth value of condition `g` when the parameter `param` has the constant `value`; None if g says nothing about it.
     Handles ==, !=, in / not in a literal collection, not, and / or -- so every arrangement of an if/elif chain over the values of
